@@ -1,78 +1,79 @@
 import TexelVerif.BookBuild.Basic
+/-!
+# BookBuild: `BookNode::updateScores` (bookbuild.cpp:37-83) and the operations built on it
+
+`fixed = false` is the algorithm as found (a changed node queues only its *children* for the path-error pass),
+`fixed = true` is the repaired one (commit `fix: BookNode::updateScores also queues the changed node itself …`):
+the changed node itself is queued as well.  The recursion of the two C++ lambdas is modelled with fuel = recursion
+depth; `Book.size + 1` is enough on an acyclic book (proved in `Preserve.lean`).
+-/
 namespace Bk
 
+/-- state of the first pass of `updateScores`: the book and the `toUpdate` set -/
 structure US where
-  g : G
-  toUpdate : List Nat
+  b : Book
+  tu : List Nat
+deriving Repr, DecidableEq
 
 def insertSet (l : List Nat) (x : Nat) : List Nat := if l.contains x then l else x :: l
 
-/-- BookNode::updateScores / updateNegaMax; `fixed = true` is the repaired variant that also queues the changed node itself -/
-def updNM (bd : BookData) (fixed : Bool) (start : Nat) : Nat → Nat → Bool → Bool → Bool → US → US
+def childIds (n : Node) : List Nat := n.children.map (·.2)
+def parentIds (n : Node) : List Nat := n.parents.map (·.2)
+
+/-- `computeNegaMax` on node `i` followed by the `toUpdate.insert` calls of the `propagate` branch -/
+def nmStep (fixed : Bool) (s : US) (i : Nat) : US × Bool :=
+  let r := s.b.computeNegaMax i
+  let tu :=
+    if r.2 then
+      let t := (childIds (r.1.nd i)).foldl insertSet s.tu
+      if fixed then insertSet t i else t
+    else s.tu
+  ({ b := r.1, tu := tu }, r.2)
+
+/-- the lambda `updateNegaMax(node, updateThis, updateChildren, updateParents)` -/
+def updNM (fixed : Bool) (start : Nat) : Nat → Nat → Bool → Bool → Bool → US → US
   | 0, _, _, _, _, s => s
   | fuel+1, i, updThis, updChildren, updParents, s =>
-    if !updThis && (nd s.g i).nm != INVALID then s else
+    if !updThis && (s.b.nd i).nm != INVALID then s else
     let s1 := if updChildren then
-                (nd s.g i).children.foldl (fun acc e => updNM bd fixed start fuel e.2 false true false acc) s
+                (childIds (s.b.nd i)).foldl (fun acc c => updNM fixed start fuel c false true false acc) s
               else s
-    let (g2, propagate) := computeNegaMax bd s1.g i
-    let tu := if propagate then
-                let t := (nd g2 i).children.foldl (fun acc e => insertSet acc e.2) s1.toUpdate
-                if fixed then insertSet t i else t
-              else s1.toUpdate
-    let s2 : US := { g := g2, toUpdate := tu }
-    if updParents && (propagate || i == start) then
-      (nd s2.g i).parents.foldl (fun acc e => updNM bd fixed start fuel e.2 true false true acc) s2
-    else s2
+    let r := nmStep fixed s1 i
+    if updParents && (r.2 || i == start) then
+      (parentIds (r.1.b.nd i)).foldl (fun acc p => updNM fixed start fuel p true false true acc) r.1
+    else r.1
 
-def updPE : Nat → Nat → G → G
-  | 0, _, g => g
-  | fuel+1, i, g =>
-    let (g1, modified) := computePathError g i
-    if modified then (nd g1 i).children.foldl (fun acc e => updPE fuel e.2 acc) g1 else g1
+/-- the lambda `updatePathErrors(node)` -/
+def updPE : Nat → Nat → Book → Book
+  | 0, _, b => b
+  | fuel+1, i, b =>
+    let r := b.computePathError i
+    if r.2 then (childIds (r.1.nd i)).foldl (fun acc c => updPE fuel c acc) r.1 else r.1
 
-def sortByDepth (g : G) (l : List Nat) : List Nat :=
-  l.foldr (fun x acc =>
-    let lt (y x : Nat) : Bool := (nd g y).depth < (nd g x).depth || ((nd g y).depth == (nd g x).depth && y < x)
-    let (a, b) := acc.span (fun y => lt y x)
-    a ++ x :: b) []
+/-- iteration order of `std::set<BookNode*,Compare>`: by depth, then by address (here: by index) -/
+def depthLt (b : Book) (y x : Nat) : Bool :=
+  (b.nd y).depth < (b.nd x).depth || ((b.nd y).depth == (b.nd x).depth && y < x)
 
-def updateScores (bd : BookData) (fixed : Bool) (fuel : Nat) (g : G) (start : Nat) : G :=
-  let s := updNM bd fixed start fuel start true true true { g := g, toUpdate := [start] }
-  (sortByDepth s.g s.toUpdate).foldl (fun acc n => updPE fuel n acc) s.g
+def sortByDepth (b : Book) (l : List Nat) : List Nat :=
+  l.foldr (fun x acc => acc.takeWhile (fun y => depthLt b y x) ++ x :: acc.dropWhile (fun y => depthLt b y x)) []
 
-def setSearchResult (bd : BookData) (fixed : Bool) (g : G) (i : Nat) (mv : Nat) (score : Int) : G :=
-  let n := nd g i
-  updateScores bd fixed 64 (g.setIfInBounds i { n with bestMove := mv, search := score }) i
+/-- `BookNode::updateScores` on node `start` -/
+def updateScores (fixed : Bool) (b : Book) (start : Nat) : Book :=
+  let fuel := b.size + 1
+  let s := updNM fixed start fuel start true true true { b := b, tu := [start] }
+  (sortByDepth s.b s.tu).foldl (fun acc n => updPE fuel n acc) s.b
 
-/-- The path-error defining equation for node i (what computePathError would store) holds -/
-def peOk (g : G) (i : Nat) : Bool := (computePathError g i).2 == false
-def nmOk (bd : BookData) (g : G) (i : Nat) : Bool := (computeNegaMax bd g i).2 == false
-def fixedPoint (bd : BookData) (g : G) : Bool := (List.range g.size).all (fun i => peOk g i && nmOk bd g i)
+/-- `BookNode::setSearchResult` -/
+def setSearchResult (fixed : Bool) (b : Book) (i : Nat) (mv : Nat) (score : Int) (time : Nat) : Book :=
+  let n := b.nd i
+  updateScores fixed (b.setNode i { n with bestMove := mv, search := score, time := time }) i
 
-/-- witness graph: R(0) → A(1), B(2);  A → C(3) -/
-def g0 : G := #[
-  { depth := 0, peW := 0, peB := 0, children := [(796, 1), (731, 2)] },           -- moves e2e4 / d2d4 as compressed ints
-  { depth := 1, parents := [(796, 0)], children := [(2356, 3)] },
-  { depth := 1, parents := [(731, 0)] },
-  { depth := 2, parents := [(2356, 1)] } ]
+/-- `Book::addPending` -/
+def addPending (fixed : Bool) (b : Book) (i : Nat) : Book :=
+  updateScores fixed { b with pending := insertSet b.pending i } i
 
-def bd0 : BookData := {}
-
-def run (fixed : Bool) : G :=
-  let g := setSearchResult bd0 fixed g0 0 1350 0
-  let g := setSearchResult bd0 fixed g 2 2942 (-50)
-  let g := setSearchResult bd0 fixed g 1 2942 (-10)
-  let g := setSearchResult bd0 fixed g 3 1350 10
-  setSearchResult bd0 fixed g 3 1350 (-30)
-
-#eval (run false).toList.map (fun n => (n.nm, n.peW, n.peB))
-#eval fixedPoint bd0 (run false)
-#eval (run true).toList.map (fun n => (n.nm, n.peW, n.peB))
-#eval fixedPoint bd0 (run true)
-
-/-- the current code leaves the graph off its fixed point; the repaired variant does not (on this history) -/
-theorem fixedpoint_broken_witness : fixedPoint bd0 (run false) = false := by decide +kernel
-theorem fixedpoint_ok_witness_fixed : fixedPoint bd0 (run true) = true := by decide +kernel
+/-- `Book::removePending` -/
+def removePending (fixed : Bool) (b : Book) (i : Nat) : Book :=
+  updateScores fixed { b with pending := b.pending.filter (· != i) } i
 
 end Bk
